@@ -402,6 +402,9 @@ func TestFormatsAgree(t *testing.T) {
 		if influxy {
 			target = forInflux(target, rc)
 		}
+		for f := fProto; f <= fInflux; f++ {
+			target = excludeKnownShapes("TestFormatsAgree", target, rc, f)
+		}
 		shards := int32(rapid.IntRange(1, 64).Draw(t, "shards"))
 
 		type outcome struct {
